@@ -8,5 +8,7 @@ CONSTANTS Cap = 2
  MixAnyTime = FALSE
  UncheckedLengths = TRUE
  SilencePanics = FALSE
-INVARIANTS TypeOK C10_run_ends_clean C10_no_stuck C11_mix_answered C11_no_crash MixServedWhileRunning
+ MaxFails = 1
+ FailedStartStuck = FALSE
+INVARIANTS TypeOK C10_failed_start_clean C10_run_ends_clean C10_no_stuck C11_mix_answered C11_no_crash MixServedWhileRunning
 CHECK_DEADLOCK FALSE
